@@ -295,12 +295,30 @@ def deep_output_case(rng):
     return wf, rules, ops, {'T': T, 'reader': via, 'step_out': True, 'deep': True}
 
 
+def loop_scope_case(rng):
+    """the loop idiom (a step inside a branch jumps back to an earlier step) with a local of the same name in the
+    looping step and in its sibling: every round of `work` starts with its own `tmp`, and what it writes to `tmp` never
+    lands in the sibling `check` (which is not an ancestor of `work`, although `work` is started from below it)"""
+    N = rng.randint(2, 3)
+    t0, t9 = rng.randint(0, 5), rng.randint(50, 99)
+    work = {'id': 'work', 'inputs': {'tmp': t0}, 'acts': [{'id': 'wa', 'uses': 'acts.transform.code', 'params': 'return { seen: seen.concat([tmp]), n: n + 1, tmp: tmp + 1 };'}]}
+    if rng.random() < 0.4:
+        work['acts'].append({'id': 'wq', 'uses': IRQ, 'key': 'wq'})
+    again = {'id': 'again', 'if': f'n < {N}', 'steps': [{'id': 'jump', 'next': 'work'}]}
+    if rng.random() < 0.4:
+        again['steps'].insert(0, {'id': 'pj', 'acts': [{'id': 'pja', 'uses': IRQ, 'key': 'pja'}]})
+    wf = {'id': 'm1', 'inputs': {'n': 0, 'seen': []}, 'outputs': {'n': None, 'seen': None}, 'steps': [work, {'id': 'check', 'inputs': {'tmp': t9}, 'branches': [again]}]}
+    rules = [{'match': {'uses': IRQ}, 'action': 'next', 'times': 50}]
+    ops = [{'op': 'start', 'mid': 'm1', 'vars': {'pid': 'p1'}}, {'op': 'run'}, {'op': 'snapshot', 'level': 'live'}]
+    return wf, rules, ops, {'T': t0, 'reader': 'loop', 'step_out': False, 'loop': True, 'N': N, 't9': t9}
+
+
 class DataFamily:
     name = 'data'
 
     def gen_fork(self, rng, idx, opts):
         r_ = rng.random()
-        wf, rules, ops, m = fork_case(rng) if r_ < 0.55 else handover_case(rng) if r_ < 0.75 else deep_output_case(rng)
+        wf, rules, ops, m = fork_case(rng) if r_ < 0.5 else handover_case(rng) if r_ < 0.65 else deep_output_case(rng) if r_ < 0.85 else loop_scope_case(rng)
         rt = rng.choice([{'flavor': 'current'}, {'flavor': 'current', 'chaos': {'max_yields': 3, 'seed': rng.randrange(1, 1 << 40)}}, {'flavor': 'multi', 'workers': 2, 'chaos': {'max_yields': 2, 'seed': rng.randrange(1, 1 << 40)}}])
         sc = {'id': '', 'family': 'data', 'sched': rt['flavor'] + '-fork', 'runtime': rt, 'engine': {'store': opts.get('store', 'mem'), 'keep_processes': True}, 'models': [json.dumps(wf)],
               'responder': {'mode': 'quiescent', 'rules': rules}, 'ops': ops}
@@ -319,6 +337,22 @@ class DataFamily:
             if ms != [0, m['T']]:
                 out.append(V('C07', 'read-your-writes', f"handed-on-output:{m['reader']}:{'stale' if len(ms) == 2 and ms[1] == 0 else 'other'}",
                              f"step2 ran twice (the client sent the flow back after x={m['T']} had been written): its two runs received x = {ms} through {m['reader']}, expected [0, {m['T']}]", scenario=sid))
+            return out
+        if m.get('loop'):
+            obs['c07.loops-with-a-sibling-local-of-the-same-name'] += 1
+            cb = [e for e in h.cbs if e['what'] == 'complete']
+            if not cb:
+                out.append(V('C07', 'program-did-not-complete', 'loop-scope', f"program did not complete: {[(e['what'], e['state']) for e in h.cbs if e['what'] != 'start']}", scenario=sid))
+                return out
+            o = cb[0].get('outputs') or {}
+            if o.get('seen') != [m['T']] * m['N'] or o.get('n') != m['N']:
+                leak = any(isinstance(x, int) and x >= m['t9'] for x in (o.get('seen') or []))
+                out.append(V('C07', 'scope-leak' if leak else 'read-your-writes', f"loop:{'sibling-local-read' if leak else 'other'}",
+                             f"{m['N']} rounds of a step whose local tmp starts at {m['T']} (its sibling declares tmp = {m['t9']}): the rounds saw tmp = {o.get('seen')}, n = {o.get('n')}", scenario=sid))
+            for t in h.final_tasks().values():
+                if t['nid'] == 'check' and (t.get('data') or {}).get('tmp') != m['t9']:
+                    out.append(V('C07', 'scope-leak', 'loop:sibling-local-written', f"the local tmp of step check is {(t.get('data') or {}).get('tmp')}, it was declared as {m['t9']} and nothing below check writes it", scenario=sid))
+                    break
             return out
         if m.get('deep'):
             obs[f"c07.deep-outputs:{m['reader']}"] += 1
